@@ -19,6 +19,7 @@ from harness import core
 from harness import coqemit as E
 from harness import fieldgen as G
 from harness import structgen as S
+from harness import c01lat as L
 
 ALLOWED_INTERNAL = ("_instantiated", "_none_fields")
 
@@ -146,6 +147,8 @@ def gen_env(rnd, idx, max_depth):
     if rnd.random() < 0.6:
         a["fields"].append({"name": "g", "field": featured(rnd)})
     add_defaults(rnd, a, None)
+    if a.get("required") is not None and rnd.random() < 0.3:
+        a["spell_optional"] = True       # `_optional = [...]`, the other documented spelling
     b = S.gen_class(rnd, pre + "B", ctx_names=base_names, n_fields=rnd.randint(1, 2), container_bias=0.3,
                     max_depth=max_depth, allow_hook=False)
     for i, fd in enumerate(b["fields"]):
@@ -212,7 +215,12 @@ def gen_kw(rnd, c_ast, ctx, fields, mode):
         i = rnd.randrange(len(kw))
         fd = [f for f in fields if f["name"] == kw[i][0]][0]
         try:
-            kw[i][1] = freeze_some(rnd, G.corrupt(rnd, fd["field"], kw[i][1], ctx.instances))
+            if rnd.random() < 0.5:
+                # a value ON or JUST OUTSIDE the acceptance boundary of the declaration governing one
+                # (possibly nested) position: harness/c01lat.py
+                kw[i][1] = freeze_some(rnd, L.corrupt_near(rnd, fd["field"], kw[i][1]))
+            else:
+                kw[i][1] = freeze_some(rnd, G.corrupt(rnd, fd["field"], kw[i][1], ctx.instances))
         except Exception:  # noqa
             kw[i][1] = G.gen_any(rnd)
     elif mode == "none":
@@ -251,6 +259,28 @@ def flat_field(f):
     return False
 
 
+# the two public APIs, with and without an explicit keep_undefined
+DESER_APIS = ["Deserializer", "deserialize_structure", "Deserializer", "deserialize_structure",
+              "Deserializer/ku=True", "Deserializer/ku=False", "deserialize_structure/ku=False"]
+
+
+def deser_call(api, cls, doc):
+    from typedpy import Deserializer, deserialize_structure
+    name, _, opt = api.partition("/ku=")
+    kw = {} if not opt else {"keep_undefined": opt == "True"}
+    if name == "Deserializer":
+        return Deserializer(cls).deserialize(doc, **kw)
+    return deserialize_structure(cls, doc, **kw)
+
+
+def deser_src(api, cls_name, doc_src):
+    name, _, opt = api.partition("/ku=")
+    extra = "" if not opt else ", keep_undefined=%s" % opt
+    if name == "Deserializer":
+        return "x = Deserializer(%s).deserialize(%s%s)" % (cls_name, doc_src, extra)
+    return "x = deserialize_structure(%s, %s%s)" % (cls_name, doc_src, extra)
+
+
 def gen_chain(rnd, ctx, env):
     """A chain of 1-4 entries (JSON-able lists); class names refer to ctx."""
     a, b, c, h = env
@@ -275,12 +305,15 @@ def gen_chain(rnd, ctx, env):
         # deserialization of a document = the keyword arguments as a dict
         flat = all(flat_field(fd["field"]) for fd in fields) and all(json_shaped(v) for _, v in kw) \
             and all(k != "zz" for k, _ in kw)
-        chain.append(["deser", start["name"], kw, rnd.choice(["Deserializer", "deserialize_structure"]), bool(flat)])
+        chain.append(["deser", start["name"], kw, rnd.choice(DESER_APIS), bool(flat)])
     elif r < 0.92:
         chain.append(["deser_ser", start["name"], kw, rnd.choice(["Deserializer", "deserialize_structure"]),
                       rnd.random() < 0.3])
-    else:
+    elif r < 0.96:
         chain.append(["from_mapping", start["name"], kw, []])
+    else:
+        # the documented use of from_other_class: any object that has the attributes
+        chain.append(["from_object", start["name"], kw, [], [fd["name"] for fd in fields]])
     cur = start["name"]
     for _ in range(rnd.choice([0, 1, 1, 2, 2, 3, 3])):
         cur_ast = by[cur]
@@ -327,10 +360,7 @@ def run_step(ctx, cur, en):
     if kind == "ctor":
         return ctx.classes[en[1]](**real(en[2]))
     if kind == "deser":
-        doc = real(en[2])
-        if en[3] == "Deserializer":
-            return Deserializer(ctx.classes[en[1]]).deserialize(doc)
-        return deserialize_structure(ctx.classes[en[1]], doc)
+        return deser_call(en[3], ctx.classes[en[1]], real(en[2]))
     if kind == "deser_ser":
         # document = serialization of a real instance (when it can be built), optionally with one
         # entry replaced
@@ -340,11 +370,11 @@ def run_step(ctx, cur, en):
         if en[4] and doc:
             k = sorted(doc)[0]
             doc[k] = [doc[k]]
-        if en[3] == "Deserializer":
-            return Deserializer(cls).deserialize(doc)
-        return deserialize_structure(cls, doc)
+        return deser_call(en[3], cls, doc)
     if kind == "from_mapping":
         return ctx.classes[en[1]].from_other_class(real(en[2]), **real(en[3]))
+    if kind == "from_object":
+        return ctx.classes[en[1]].from_other_class(types.SimpleNamespace(**real(en[2])), **real(en[3]))
     if kind == "from_other":
         return ctx.classes[en[1]].from_other_class(cur, **real(en[2]))
     if kind == "clone":
@@ -355,6 +385,9 @@ def run_step(ctx, cur, en):
         kw = real(en[3])
         kw[en[2]] = cur
         return ctx.classes[en[1]](**kw)
+    if kind == "ctor_attr":
+        # Cls(attr=cur.attr): the stored (possibly wrapper) object of another instance handed to a constructor
+        return ctx.classes[en[1]](**{en[2]: getattr(cur, en[2])})
     if kind == "copy":
         return copy.copy(cur)
     if kind == "deepcopy":
@@ -438,9 +471,14 @@ def kwlit(kw):
     return E.lst(["(%s, %s)" % (E.pstr(k), E.pval(v)) for k, v in kw])
 
 
-def emit_entry(en):
+def emit_entry(en, cur_r=None):
     """(Gallina entry, compare?)"""
     k = en[0]
+    if k == "ctor_attr":
+        held = dict(cur_r[2]).get(en[2]) if (cur_r and cur_r[0] == "struct") else None
+        if held is None:
+            return "(ECtor %s [])" % E.pstr(en[1]), False       # getattr fails / yields a default: not modelled
+        return "(ECtor %s %s)" % (E.pstr(en[1]), kwlit([(en[2], held)])), True
     if k == "ctor":
         return "(ECtor %s %s)" % (E.pstr(en[1]), kwlit(en[2])), True
     if k == "deser":
@@ -449,6 +487,12 @@ def emit_entry(en):
         return "(EDeser %s %s)" % (E.pstr(en[1]), kwlit(en[2])), False
     if k == "from_mapping":
         return "(EFromMapping %s %s %s)" % (E.pstr(en[1]), kwlit(en[2]), kwlit(en[3])), True
+    if k == "from_object":
+        # attributes the object lacks are skipped (a mapping yields None for them): the constructor gets
+        # exactly the keyword arguments, as for keyword construction
+        # (attributes that are not fields of the class are not looked at)
+        return "(ECtor %s %s)" % (E.pstr(en[1]), kwlit([p for p in en[2] if p[0] in en[4] and p[0] not in dict(en[3])]
+                                                       + list(en[3]))), True
     if k == "from_other":
         return "(EFromOther %s %s)" % (E.pstr(en[1]), kwlit(en[2])), True
     if k == "clone":
@@ -496,7 +540,7 @@ def all_env_fields(ctx):
 
 def emit_case(ctx, step):
     en, cur_r, out, flags = step
-    term, cmp_ = emit_entry(en)
+    term, cmp_ = emit_entry(en, cur_r)
     cmp_ = cmp_ and not flags
     tbl = G.match_table(all_env_fields(ctx), entry_values(en) + [cur_r] + ([out[1]] if out[0] == "ok" else [])
                         + [fd["default"] for c in ctx.asts for fd in c["fields"] if fd.get("default") is not None])
@@ -504,29 +548,80 @@ def emit_case(ctx, step):
         G.emit_table(tbl), E.pval(cur_r), term, E.blit(cmp_), E.outcome(out))
 
 
-def evaluate(items, tag="c01", per=150):
-    """items: [(ctx, step)].  Returns dict name -> index list."""
+def evaluate(items, tag="c01", per=150, n_small=0, per_small=600):
+    """items: [(ctx, step)].  Returns dict name -> index list.  The first n_small items (the lattice:
+    tiny classes and values) go into larger shards: loading the libraries dominates a small shard."""
     shards = []
-    for s in range(0, len(items), per):
-        chunk = items[s:s + per]
+    starts = list(range(0, n_small, per_small)) + list(range(n_small, len(items), per))
+    ends = starts[1:] + [len(items)]
+    for s, e_ in zip(starts, ends):
+        if s < n_small < e_:
+            e_ = n_small
+        chunk = items[s:e_]
         ctxs = []
         for ctx, _ in chunk:
             if ctx not in ctxs:
                 ctxs.append(ctx)
         body = emit_env(ctxs)
         body += "Definition cases : list scase := %s.\n" % E.lst(["\n " + emit_case(ctx, st) for ctx, st in chunk])
-        for fn in FNS:
-            body += "Eval vm_compute in (indices_where %s cases 0).\n" % fn
-        shards.append(body)
-    res = core.eval_cases(shards, tag, HEADER)
+        # one pass per case: the vector of the eight verdicts (Check/C01chk.v sflags; Check/C01chkProofs.v
+        # proves it equal, component-wise, to the eight separately defined functions FNS)
+        body += "Eval vm_compute in (map sflags cases).\n"
+        shards.append((body, len(chunk), s))
+    res = core.eval_cases([b for b, _, _ in shards], tag, HEADER)
     out = {fn: [] for fn in FNS}
     for si, (rc, so, se) in enumerate(res):
         vals = core.parse_eval(so)
-        if rc != 0 or len(vals) != len(FNS):
+        bits = re.findall(r"true|false", vals[0]) if (rc == 0 and len(vals) == 1) else []
+        if len(bits) != len(FNS) * shards[si][1]:
             raise RuntimeError("case shard %d failed to evaluate: %s" % (si, (so + se)[-1500:]))
-        for fn, v in zip(FNS, vals):
-            out[fn] += [si * per + i for i in core.parse_nat_list(v)]
+        for i in range(shards[si][1]):
+            for j, fn in enumerate(FNS):
+                if bits[i * len(FNS) + j] == "true":
+                    out[fn].append(shards[si][2] + i)
     return out
+
+
+def localise(cases, tag="c01loc"):
+    """cases: [(ctx, step)] (violations).  For each: positions of the non-conforming attributes in the
+    observed instance's attribute list (Check/C01chk.v sbad_attrs).  Only used to NAME a violation."""
+    if not cases:
+        return []
+    if len(cases) > 100:
+        return localise(cases[:100], tag) + localise(cases[100:], tag)
+    ctxs = []
+    for ctx, _ in cases:
+        if ctx not in ctxs:
+            ctxs.append(ctx)
+    body = emit_env(ctxs)
+    for i, (ctx, st) in enumerate(cases):
+        body += "Definition lc%d : scase := %s.\nEval vm_compute in (sbad_attrs lc%d).\n" % (i, emit_case(ctx, st), i)
+    try:
+        (rc, so, se), = core.eval_cases([body], tag, HEADER)
+        vals = core.parse_eval(so)
+        if rc != 0 or len(vals) != len(cases):
+            return [None] * len(cases)
+        return [core.parse_nat_list(v) for v in vals]
+    except Exception:  # noqa
+        return [None] * len(cases)
+
+
+def key_shape(f, depth=0):
+    """Nested kind names of a declaration (no constraint values): names the input shape of a finding."""
+    t = f["t"]
+    if t == "num":
+        return "num:" + f["k"]
+    if t == "set" and f.get("imm"):
+        t = "set:imm"
+    if depth >= 3:
+        return t
+    subs = []
+    for key in ("item", "kf", "vf"):
+        if isinstance(f.get(key), dict):
+            subs.append(key_shape(f[key], depth + 1))
+    for key in ("items", "fs"):
+        subs += [key_shape(g, depth + 1) for g in f.get(key) or []]
+    return t + ("(" + ",".join(subs) + ")" if subs else "")
 
 
 # ------------------------------------------------------------------ keys of findings
@@ -616,7 +711,7 @@ def copied_pair(step):
     return None
 
 
-def violation_key(ctx, step, unstable):
+def violation_key(ctx, step, unstable, bad=None):
     en, cur_r, out, _flags = step
     inst = out[1]
     kind = en[0]
@@ -647,20 +742,28 @@ def violation_key(ctx, step, unstable):
             return "C01/normalised-collision/" + sorted(set(a.split(">")[-1] for a in acc))[0]
         return "C01/normalised-collision/unlocated/" + kind
     extra = ""
+    where = ""
     if inst[0] == "struct":
         try:
-            names = [fd["name"] for fd in ctx.all_fields(inst[1])]
-            und = [k for k, _ in inst[2] if k not in names]
+            decl = {fd["name"]: fd["field"] for fd in ctx.all_fields(inst[1])}
+            und = [k for k, _ in inst[2] if k not in decl]
             if und:
                 extra = "/attrs:" + ",".join(sorted(k if k.startswith("_") else "<extra>" for k in und))
+            if bad is not None:
+                shapes = sorted(set(key_shape(decl[inst[2][i][0]]) for i in bad
+                                    if i < len(inst[2]) and inst[2][i][0] in decl))
+                # which declaration the stored value does not conform to; none located: _required, the
+                # __validate__ hook, or an instance nested inside
+                where = "/" + (shapes[0] if shapes else ("undeclared" if und else "required-hook-or-nested"))
         except KeyError:
             pass
-    return "C01/invalid-instance/%s%s" % (kind, extra)
+    return "C01/invalid-instance/%s%s%s" % (kind, where, extra)
 
 
-def python_src(ctx, chain):
+def python_src(ctx, chain, env=None):
+    src = ctx.source() if env is None else "".join(S.class_src(c) + "\n" for c in [dict(c) for c in ctx.BASE] + list(env))
     lines = [G.IMPORTS, "import copy, pickle\nfrom typedpy import Deserializer, Serializer, deserialize_structure\n",
-             ctx.source(), "x = None"]
+             src, "x = None"]
     for en in chain:
         k = en[0]
         kws = lambda kw: ", ".join("%s=%s" % (n, G.py_src(v)) for n, v in kw)
@@ -668,16 +771,17 @@ def python_src(ctx, chain):
         if k == "ctor":
             lines.append("x = %s(%s)" % (en[1], kws(en[2])))
         elif k == "deser":
-            lines.append(("x = Deserializer(%s).deserialize(%s)" if en[3] == "Deserializer"
-                          else "x = deserialize_structure(%s, %s)") % (en[1], d(en[2])))
+            lines.append(deser_src(en[3], en[1], d(en[2])))
         elif k == "deser_ser":
             lines.append("doc = Serializer(%s(%s)).serialize()" % (en[1], kws(en[2])))
             if en[4]:
                 lines.append("k = sorted(doc)[0]; doc[k] = [doc[k]]")
-            lines.append(("x = Deserializer(%s).deserialize(doc)" if en[3] == "Deserializer"
-                          else "x = deserialize_structure(%s, doc)") % en[1])
+            lines.append(deser_src(en[3], en[1], "doc"))
         elif k == "from_mapping":
             lines.append("x = %s.from_other_class(%s%s)" % (en[1], d(en[2]), "".join(", " + kws([p]) for p in en[3])))
+        elif k == "from_object":
+            lines.append("import types\nx = %s.from_other_class(types.SimpleNamespace(**%s)%s)" % (
+                en[1], d(en[2]), "".join(", " + kws([p]) for p in en[3])))
         elif k == "from_other":
             lines.append("x = %s.from_other_class(x%s)" % (en[1], "".join(", " + kws([p]) for p in en[2])))
         elif k == "clone":
@@ -686,6 +790,8 @@ def python_src(ctx, chain):
             lines.append("x = x.cast_to(%s)" % en[1])
         elif k == "wrap":
             lines.append("x = %s(%s)" % (en[1], ", ".join(([kws(en[3])] if en[3] else []) + ["%s=x" % en[2]])))
+        elif k == "ctor_attr":
+            lines.append("x = %s(%s=x.%s)" % (en[1], en[2], en[2]))
         elif k == "copy":
             lines.append("x = copy.copy(x)")
         elif k == "deepcopy":
@@ -718,19 +824,203 @@ def replay(obj):
         ctx.close()
 
 
+def enums_def():
+    out = []
+    for n in sorted(G.ENUMS):
+        cls = G.ENUMS[n]
+        out.append("{| en_name := %s; en_by_value := false; en_members := %s |}" % (
+            E.pstr(n), E.lst(["(%s, %s)" % (E.pstr(m.name), E.pval(E.reify(m.value))) for m in cls])))
+    return "Definition ens0 : enums := %s.\n" % E.lst(out)
+
+
+def deser_ku(api):
+    """keep_undefined as the model's `option bool` / bool: Deserializer.deserialize defaults to None (adjusted by
+    the class), deserialize_structure to True."""
+    name, _, opt = api.partition("/ku=")
+    if opt:
+        return "(Some %s)" % E.blit(opt == "True")
+    return "None" if name == "Deserializer" else "(Some true)"
+
+
+def deser_doc_cases(items):
+    """The `deser` steps whose document is JSON-shaped, as (index, ctx, step): compared with the model of the
+    REAL pre-processing (Ser/Deserialize.v deserialize = what C01_deser_* are about), not only with the
+    constructor on pre-computed keyword arguments."""
+    from typedpy.structures import TypedPyDefaults
+    out = []
+    for i, (ctx, st) in enumerate(items):
+        en = st[0]
+        if en[0] != "deser" or not all(L.json_shaped(v) for _, v in en[2]):
+            continue
+        cls = ctx.classes[en[1]]
+        own = bool(cls.__dict__.get("_additional_properties", cls.__dict__.get(
+            "_additionalProperties", TypedPyDefaults.additional_properties_default)))
+        if own != ctx.resolved(en[1])["additional"]:
+            continue      # the deserializer reads the class's OWN setting, __setattr__ the inherited one
+        out.append((i, ctx, st))
+    return out
+
+
+def evaluate_deser(cases, tag="c01deser", per=300):
+    """-> {name: [positions in cases]} for mismatch / in_dom / declines / model_unsound."""
+    from typedpy.structures import TypedPyDefaults
+    names = ("mismatch", "in_dom", "declines", "model_unsound")
+    flags = "{| df_ignore_invalid := %s; df_compact := %s |}" % (
+        E.blit(bool(TypedPyDefaults.ignore_invalid_additional_properties_in_deserialization)),
+        E.blit(bool(TypedPyDefaults.compact_deserialization_default)))
+    shards = []
+    for s in range(0, len(cases), per):
+        chunk = cases[s:s + per]
+        ctxs = []
+        for _, ctx, _ in chunk:
+            if ctx not in ctxs:
+                ctxs.append(ctx)
+        body = emit_env(ctxs) + enums_def()
+        recs = []
+        for _, ctx, st in chunk:
+            en, cur_r, out, _fl = st
+            doc = ("dict", [(("str", k), v) for k, v in en[2]])
+            tbl = G.match_table(all_env_fields(ctx), [doc] + ([out[1]] if out[0] == "ok" else [])
+                                + [fd["default"] for c in ctx.asts for fd in c["fields"] if fd.get("default") is not None])
+            recs.append("{| dc_tbl := %s; dc_env := env0; dc_ens := ens0; dc_flags := %s; dc_ku := %s; dc_cls := %s; "
+                        "dc_doc := %s; dc_obs := %s |}" % (
+                            G.emit_table(tbl), flags, deser_ku(en[3]),
+                            E.pstr(en[1]), E.pval(doc), E.outcome(out)))
+        body += "Definition dcases : list dcase := %s.\n" % E.lst(["\n " + r for r in recs])
+        body += "Eval vm_compute in (map dflags_of dcases).\n"
+        shards.append((body, len(chunk), s))
+    res = core.eval_cases([b for b, _, _ in shards], tag, HEADER)
+    out = {n: [] for n in names}
+    for si, (rc, so, se) in enumerate(res):
+        vals = core.parse_eval(so)
+        bits = re.findall(r"true|false", vals[0]) if (rc == 0 and len(vals) == 1) else []
+        if len(bits) != len(names) * shards[si][1]:
+            raise RuntimeError("deser shard %d failed to evaluate: %s" % (si, (so + se)[-1500:]))
+        for i in range(shards[si][1]):
+            for j, n in enumerate(names):
+                if bits[i * len(names) + j] == "true":
+                    out[n].append(shards[si][2] + i)
+    return out
+
+
+def site_status(rep):
+    """Today's entry-site table (Gen/EntrySites.v, regenerated from the working tree): which rows the
+    model predicts to be holes (Check/C01chk.v unsafe_site_kinds, evaluated in Coq)."""
+    from harness.genmods import c01_entry_sites as ES
+    kinds = ["deserialize", "from_other_class(instance)", "from_other_class(mapping)", "shallow_clone_with_overrides",
+             "cast_to", "copy", "deepcopy", "pickle"]
+    rows, absent = ES.analyse()
+    table = {n: [k if isinstance(k, str) else "%s %s" % k for k in ks] for n, ks in rows}
+    rep.cov["entry_sites"] = {"rows": table, "default_unpickle": absent}
+    try:
+        (rc, so, se), = core.eval_cases(["Eval vm_compute in unsafe_site_kinds.\n"], "c01sites", HEADER)
+        vals = core.parse_eval(so)
+        if rc != 0 or len(vals) != 1:
+            raise RuntimeError((so + se)[-800:])
+        unsafe = [kinds[i] for i in core.parse_nat_list(vals[0])]
+    except Exception as ex:  # noqa
+        rep.obligation("entry-sites:today-safe", False, "could not evaluate: %s" % ex)
+        return None
+    rep.cov["entry_sites"]["unsafe"] = unsafe
+    rep.obligation("entry-sites:today-safe", not unsafe,
+                   "%d rows read off the source, all funnel into the validating constructor / recognised copy idioms" % len(rows)
+                   if not unsafe else "rows not safe: %s; table: %s" % (unsafe, table))
+    return unsafe
+
+
 # ------------------------------------------------------------------ the check
+
+def minimal_env(asts, chain):
+    """The class ASTs a chain mentions (and their bases): keeps replay files small."""
+    by = {a["name"]: a for a in asts}
+    need = set()
+    for en in chain:
+        for part in en[1:]:
+            if isinstance(part, str) and part in by:
+                need.add(part)
+    grew = True
+    while grew:
+        grew = False
+        for n in list(need):
+            b = by[n].get("base")
+            if b in by and b not in need:
+                need.add(b)
+                grew = True
+            for fd in by[n]["fields"]:
+                stack = [fd["field"]]
+                while stack:
+                    f = stack.pop()
+                    if f.get("t") == "ref" and f["cls"] in by and f["cls"] not in need:
+                        need.add(f["cls"])
+                        grew = True
+                    for key in ("item", "kf", "vf"):
+                        if isinstance(f.get(key), dict):
+                            stack.append(f[key])
+                    for key in ("items", "fs"):
+                        stack += list(f.get(key) or [])
+    return [a for a in asts if a["name"] in need]
+
 
 def run(rep, tier):
     rnd = random.Random(core.seed() * 1000003 + 1)
     n_env = 160 if tier == "quick" else 1500
     per_env = 14 if tier == "quick" else 22
     max_depth = 2 if tier == "quick" else 3
-    proofs_ok, model_ok = core.standard_proof_obligations(rep, "C01", ["theories/Check/C01chk.vo"])
+    proofs_ok, model_ok = core.standard_proof_obligations(
+        rep, "C01", ["theories/Check/C01chk.vo", "theories/Check/C01chkProofs.vo"])
     items = []       # (ctx, step)
     where = []       # (env asts, chain, step index)
     ctxs = []
     n_chains = 0
     rejected_envs = 0
+
+    def add_chain(ctx, env, chain, stream, shape_key):
+        steps = run_chain(ctx, chain)
+        rep.stat(stream, "executed-length:%d" % len(steps))
+        for si, st in enumerate(steps):
+            en, cur_r, out, flags = st
+            for fl in flags:
+                rep.stat(stream, "not-compared:" + fl)
+            items.append((ctx, st))
+            where.append((env, chain, si))
+            okind = "ok" if out[0] == "ok" else out[1]
+            rep.count(stream, 1, (en[0], okind, shape_key, len(en[1]) if en[0] == "clone" else 0))
+            rep.stat(stream, "entry:" + en[0])
+            rep.stat(stream, "outcome:" + okind)
+        return steps
+
+    import time as _time
+    _t = {"start": _time.time()}
+    # ---- stream 1: the boundary lattice, every near-miss value through every entry point (deterministic)
+    n_lat = 0
+    lat_decl = 0
+    for pre, asts, build in L.lattice(tier, core.seed()):
+        try:
+            ctx = Ctx(asts)
+        except Exception as ex:  # noqa   a lattice declaration the library refuses to define
+            rep.stat("lattice", "group-rejected:" + type(ex).__name__)
+            continue
+        ctxs.append(ctx)
+        lat_decl += len(asts) - 1
+
+        def find_good(cname, cands, ctx=ctx):
+            for x in cands:
+                try:
+                    ctx.classes[cname](f=G.unreify(x, ctx.classes))
+                    return x
+                except Exception:  # noqa
+                    continue
+            return None
+        for wname, leaf_shape, chain in build(find_good):
+            add_chain(ctx, minimal_env(asts, chain), chain, "lattice", (wname, leaf_shape))
+            rep.stat("lattice", "wrapper:" + wname)
+            n_lat += 1
+    rep.cov["streams"].setdefault("lattice", {"evaluations": 0})
+    rep.cov["streams"]["lattice"].update({"chains": n_lat, "declarations": lat_decl})
+    n_lattice_items = len(items)
+    _t["lattice_run_s"] = round(_time.time() - _t["start"], 1)
+
+    # ---- stream 2: random environments of related classes, random chains
     for idx in range(n_env):
         for _try in range(6):
             env = gen_env(rnd, idx * 10 + _try, max_depth)
@@ -745,43 +1035,58 @@ def run(rep, tier):
         ctxs.append(ctx)
         for _ in range(per_env):
             chain = gen_chain(rnd, ctx, env)
-            steps = run_chain(ctx, chain)
+            add_chain(ctx, env, chain, "steps", tuple(sorted(G.shape(fd["field"]) for fd in env[0]["fields"]))[:3])
             n_chains += 1
-            rep.stat("chains", "executed-length:%d" % len(steps))
-            for si, st in enumerate(steps):
-                en, cur_r, out, flags = st
-                for fl in flags:
-                    rep.stat("steps", "not-compared:" + fl)
-                items.append((ctx, st))
-                where.append((env, chain, si))
-                okind = "ok" if out[0] == "ok" else out[1]
-                rep.count("steps", 1, (en[0], okind, tuple(sorted(G.shape(fd["field"]) for fd in env[0]["fields"]))[:3],
-                                       len(en[1]) if en[0] == "clone" else 0))
-                rep.stat("steps", "entry:" + en[0])
-                rep.stat("steps", "outcome:" + okind)
     rep.cov["streams"].setdefault("steps", {"evaluations": 0})
     rep.cov["streams"]["steps"].update({"chains": n_chains, "environments": len(ctxs),
                                         "class_statements_rejected": rejected_envs})
     if items:
         env, chain, _ = where[0]
-        rep.sample({"classes": ctxs[0].source()[-1500:], "chain": chain, "observed": repr(items[0][1][2])[:400]})
+        rep.sample({"stream": "lattice", "chain": chain, "observed": repr(items[0][1][2])[:400]})
+        if len(items) > n_lattice_items:
+            env, chain, _ = where[n_lattice_items]
+            rep.sample({"classes": items[n_lattice_items][0].source()[-1500:], "chain": chain,
+                        "observed": repr(items[n_lattice_items][1][2])[:400]})
         env, chain, _ = where[-1]
         rep.sample({"chain": chain, "observed": repr(items[-1][1][2])[:400]})
+    _t["random_run_s"] = round(_time.time() - _t["start"] - _t["lattice_run_s"], 1)
+    r = None
+    unsafe_sites = site_status(rep) if model_ok else None
+    try:
+        from harness.genmods import c01_enum_guard as EG
+        _txt, gstatus = EG.render()
+        rep.cov["generated_guards_enum"] = gstatus
+        rep.obligation("regen:Gen/GuardsEnum.v", all(v == "ok" for v in gstatus.values()),
+                       "; ".join("%s: %s" % kv for kv in sorted(gstatus.items())))
+    except Exception as ex:  # noqa
+        rep.obligation("regen:Gen/GuardsEnum.v", False, repr(ex))
     if model_ok:
         r = None
         try:
-            r = evaluate(items)
+            _t0 = _time.time()
+            r = evaluate(items, n_small=n_lattice_items)
+            _t["coq_eval_s"] = round(_time.time() - _t0, 1)
         except RuntimeError as ex:
             rep.broken("correspondence:run_entry/coq-eval", str(ex))
+        _t.pop("start", None)
+        rep.cov["timing"] = _t
         if r is not None:
             s = rep.cov["streams"]["steps"]
-            acc = sum(1 for _, st in items if st[2][0] == "ok")
-            s.update({"accepted": acc, "in_statement_domain": len(r["sin_dom"]),
-                      "in_theorem_domain": len(r["sin_thm_dom"]), "model_declines": len(r["sunmodelled"]),
+            lat_idx = set(range(n_lattice_items))
+            rep.cov["streams"]["lattice"].update({
+                "accepted": sum(1 for _, st in items[:n_lattice_items] if st[2][0] == "ok"),
+                "in_statement_domain": len(set(r["sin_dom"]) & lat_idx),
+                "in_theorem_domain": len(set(r["sin_thm_dom"]) & lat_idx),
+                "model_declines": len(set(r["sunmodelled"]) & lat_idx)})
+            acc = sum(1 for _, st in items[n_lattice_items:] if st[2][0] == "ok")
+            rnd_n = lambda name: len([i for i in r[name] if i >= n_lattice_items])
+            s.update({"accepted": acc, "in_statement_domain": rnd_n("sin_dom"),
+                      "in_theorem_domain": rnd_n("sin_thm_dom"), "model_declines": rnd_n("sunmodelled"),
                       "copy_raised_not_compared": len(r["scopy_raised"]),
                       "unstable_input_rejected_by_typedpy_only_not_compared": len(r["sstricter"])})
-            if not (0.3 <= acc / max(1, len(items)) <= 0.9):
-                rep.broken("generator:accept-rate", "accept rate %.2f outside [0.3, 0.9]: inconclusive" % (acc / max(1, len(items))))
+            n_rand = max(1, len(items) - n_lattice_items)
+            if not (0.3 <= acc / n_rand <= 0.9):
+                rep.broken("generator:accept-rate", "accept rate %.2f outside [0.3, 0.9]: inconclusive" % (acc / n_rand))
             unstable = set(r["sunstable"])
             # validation-bypass flags must never survive on an instance handed out by a validating
             # entry point (with _additional_properties=True the Coq spec would take them for extras)
@@ -793,15 +1098,17 @@ def run(rep, tier):
                         rep.finding("C01/invalid-instance/%s/attrs:%s" % (st[0][0], ",".join(flags)),
                                     "entry point %s hands out an instance that still carries %s" % (st[0][0], flags),
                                     {"env": env, "chain": chain[:si + 1], "failing_step": si, "observed": st[2],
-                                     "python": python_src(ctx, chain[:si + 1])})
+                                     "python": python_src(ctx, chain[:si + 1], env)})
+            loc_idx = [i for i in r["sviolation"] if i not in unstable][:1000]
+            located = dict(zip(loc_idx, localise([items[i] for i in loc_idx])))
             for i in r["sviolation"]:
                 ctx, st = items[i]
                 env, chain, si = where[i]
-                key = violation_key(ctx, st, i in unstable)
+                key = violation_key(ctx, st, i in unstable, located.get(i))
                 rep.finding(key, "entry point %s yields an instance its own declaration rejects (step %d of %s)" % (
                     st[0][0], si, [e[0] for e in chain]),
                     {"env": env, "chain": chain[:si + 1], "failing_step": si, "observed": st[2],
-                     "python": python_src(ctx, chain[:si + 1])})
+                     "python": python_src(ctx, chain[:si + 1], env)})
             rep.obligation("spec-on-observed:inst_ok+deep_valid",
                            not any(not v["no_input"] for v in rep.violations),
                            "%d accepted in-domain steps, %d spec failures" % (
@@ -822,9 +1129,42 @@ def run(rep, tier):
                            "model (Struct/Entry.v, Struct/Instance.v) and typedpy differ on %d generated steps "
                            "(entry kinds %s); the spec holds on every explored input" % (len(r["smismatch"]), kinds),
                            {"env": env, "chain": chain[:si + 1], "failing_step": si, "observed": st[2],
-                            "python": python_src(ctx, chain[:si + 1])})
+                            "python": python_src(ctx, chain[:si + 1], env)})
+    # ---- deserialization against the model of its REAL pre-processing (the model C01_deser_* are about)
+    if model_ok and r is not None:
+        dc = deser_doc_cases(items)
+        rep.cov["streams"]["deser-doc"] = {"evaluations": len(dc)}
+        try:
+            dr = evaluate_deser(dc) if dc else None
+        except RuntimeError as ex:
+            dr = None
+            rep.broken("correspondence:deserialize/coq-eval", str(ex))
+        if dr is not None:
+            viol = set(r["sviolation"])
+            mism = [k for k in dr["mismatch"] if dc[k][0] not in viol]
+            rep.cov["streams"]["deser-doc"].update({
+                "in_theorem_domain": len(dr["in_dom"]), "model_declines": len(dr["declines"]),
+                "accepted": sum(1 for _, _, st in dc if st[2][0] == "ok")})
+            rep.obligation("correspondence:deserialize", not mism and not dr["model_unsound"],
+                           "%d JSON-shaped documents, %d mismatches outside concrete spec failures, %d in the domain of "
+                           "C01_deserialize_sound" % (len(dc), len(mism), len(dr["in_dom"])))
+            if (mism or dr["model_unsound"]) and not any(not v["no_input"] for v in rep.violations):
+                k = (mism or dr["model_unsound"])[0]
+                i, ctx, st = dc[k]
+                env, chain, si = where[i]
+                rep.broken("correspondence:deserialize",
+                           "model of deserialization (Ser/Deserialize.v) and typedpy differ on %d documents; the spec holds "
+                           "on every explored input" % len(mism),
+                           {"env": env, "chain": chain[:si + 1], "failing_step": si, "observed": st[2],
+                            "python": python_src(ctx, chain[:si + 1], env)})
     for ctx in ctxs:
         ctx.close()
+    if unsafe_sites and not any(not v["no_input"] for v in rep.violations):
+        rep.broken("entry-sites:today-safe",
+                   "the source no longer funnels %s into the validating constructor / the recognised copy idioms "
+                   "(Gen/EntrySites.v; C01_entry_sites_today fails, C01_sites_characterisation gives the model's "
+                   "witness), but no generated input made typedpy hand out an invalid instance" % unsafe_sites,
+                   {"entry_sites": rep.cov.get("entry_sites")})
     if not proofs_ok:
         from harness.props.c17 import broken_build
         broken_build(rep)
